@@ -379,4 +379,214 @@ theorem f64_column_exact (lo hi : B) (hv : Int) (hs : -(2 ^ 53) < hv ∧ hv < 2 
       simp only [coerceF, upperHolds]
       rw [Bool.eq_iff_iff, decide_eq_true_eq, decide_eq_true_eq]; exact h.2
 
+/-! ### merged column type = write-time type of the union (values supplied as u64) -/
+
+/-- a segment's values with the min / max its column records -/
+structure SegVals where
+  vals : List Int
+  mn : Int
+  mx : Int
+
+def SegVals.ok (s : SegVals) : Prop :=
+  s.mn ∈ s.vals ∧ s.mx ∈ s.vals ∧ (∀ v ∈ s.vals, s.mn ≤ v ∧ v ≤ s.mx) ∧ (∀ v ∈ s.vals, 0 ≤ v)
+
+def SegVals.src (s : SegVals) : Src := ⟨(colOf true s.vals).lift, s.mn, s.mx⟩
+
+theorem colOf_true_i64_iff (vals : List Int) : colOf true vals = .i64 ↔ ∀ v ∈ vals, v < I64MAX := by
+  unfold colOf
+  simp only [Bool.not_true, Bool.false_or]
+  constructor
+  · intro h
+    split at h
+    · rename_i hall
+      intro v hv
+      simpa using List.all_eq_true.mp hall v hv
+    · cases h
+  · intro h
+    have : vals.all (fun v => decide (v < I64MAX)) = true := by
+      rw [List.all_eq_true]; intro v hv; simpa using h v hv
+    simp [this]
+
+theorem mergedCol_u64_supplied (segs : List SegVals) (hok : ∀ s ∈ segs, s.ok) :
+    mergedCol (segs.map SegVals.src) = (colOf true (segs.flatMap (·.vals))).lift := by
+  have hallU : allU64 (segs.map SegVals.src) = true := by
+    unfold allU64
+    rw [List.all_eq_true]
+    intro x hx
+    obtain ⟨s, hs, rfl⟩ := List.mem_map.mp hx
+    have h := hok s hs
+    have h1 := h.2.2.2 s.mn h.1
+    have h2 := h.2.2.2 s.mx h.2.1
+    simp only [SegVals.src]
+    cases colOf true s.vals <;> simp [ColT.lift, h1, h2]
+  have hallI : allI64 (segs.map SegVals.src) = true ↔ ∀ s ∈ segs, colOf true s.vals = .i64 := by
+    unfold allI64
+    rw [List.all_eq_true]
+    constructor
+    · intro h s hs
+      have hx := h (SegVals.src s) (List.mem_map.mpr ⟨s, hs, rfl⟩)
+      simp only [SegVals.src] at hx
+      cases hc : colOf true s.vals with
+      | i64 => rfl
+      | u64 =>
+        exfalso
+        rw [hc] at hx
+        simp only [ColT.lift, Bool.and_eq_true, decide_eq_true_eq] at hx
+        have hmx := hx.2
+        have hnot : ¬ (∀ v ∈ s.vals, v < I64MAX) := by
+          intro hall
+          have := (colOf_true_i64_iff s.vals).mpr hall
+          rw [hc] at this; cases this
+        apply hnot
+        intro v hv
+        have hle : v ≤ s.mx := ((hok s hs).2.2.1 v hv).2
+        exact Int.lt_of_le_of_lt hle (of_decide_eq_true hmx)
+    · intro h x hx
+      obtain ⟨s, hs, rfl⟩ := List.mem_map.mp hx
+      simp [SegVals.src, h s hs, ColT.lift]
+  unfold mergedCol
+  by_cases hI : ∀ s ∈ segs, colOf true s.vals = .i64
+  · have hall : colOf true (segs.flatMap (·.vals)) = .i64 := by
+      rw [colOf_true_i64_iff]
+      intro v hv
+      obtain ⟨s, hs, hvs⟩ := List.mem_flatMap.mp hv
+      exact (colOf_true_i64_iff s.vals).mp (hI s hs) v hvs
+    rw [if_pos (hallI.mpr hI), hall]; rfl
+  · have hall : colOf true (segs.flatMap (·.vals)) = .u64 := by
+      cases hc : colOf true (segs.flatMap (·.vals)) with
+      | u64 => rfl
+      | i64 =>
+        exfalso
+        apply hI
+        intro s hs
+        rw [colOf_true_i64_iff]
+        intro v hv
+        exact (colOf_true_i64_iff _).mp hc v (List.mem_flatMap.mpr ⟨s, hs, hv⟩)
+    have hnI : ¬ (allI64 (segs.map SegVals.src) = true) := fun h => hI (hallI.mp h)
+    rw [if_neg hnI, if_pos hallU, hall]; rfl
+
+/-! ### merged column type = write-time type of the union (any mix of supplied types) -/
+
+/-- a segment's values (`true`: supplied as u64) with the min / max its column records -/
+structure SegMix where
+  vals : List (Bool × Int)
+  mn : Int
+  mx : Int
+
+def SegMix.ok (s : SegMix) : Prop :=
+  (∃ b, (b, s.mn) ∈ s.vals) ∧ (∃ b, (b, s.mx) ∈ s.vals) ∧ (∀ p ∈ s.vals, s.mn ≤ p.2 ∧ p.2 ≤ s.mx)
+    ∧ (∀ p ∈ s.vals, p.1 = true → 0 ≤ p.2)
+
+def SegMix.src (s : SegMix) : Src := ⟨writtenCol s.vals, s.mn, s.mx⟩
+
+theorem pI_false_elim {vals : List (Bool × Int)} (h : ¬ pI vals = true) :
+    ∃ p ∈ vals, p.1 = true ∧ I64MAX ≤ p.2 := by
+  apply Classical.byContradiction
+  intro hn
+  apply h
+  unfold pI
+  rw [List.all_eq_true]
+  intro p hp
+  cases hb : p.1 with
+  | false => rfl
+  | true =>
+    simp only [Bool.not_true, Bool.false_or, decide_eq_true_eq]
+    apply Int.lt_of_not_ge
+    intro hge
+    exact hn ⟨p, hp, hb, hge⟩
+
+theorem pU_false_elim {vals : List (Bool × Int)} (h : ¬ pU vals = true) :
+    ∃ p ∈ vals, p.1 = false ∧ p.2 < 0 := by
+  apply Classical.byContradiction
+  intro hn
+  apply h
+  unfold pU
+  rw [List.all_eq_true]
+  intro p hp
+  cases hb : p.1 with
+  | true => rfl
+  | false =>
+    simp only [Bool.false_or, decide_eq_true_eq]
+    apply Int.le_of_not_gt
+    intro hlt
+    exact hn ⟨p, hp, hb, hlt⟩
+
+theorem src_allI (s : SegMix) (h : s.ok) :
+    (match s.src.col with
+      | .u64 => decide (s.src.mn < I64MAX) && decide (s.src.mx < I64MAX)
+      | .i64 => true
+      | .f64 => false) = pI s.vals := by
+  simp only [SegMix.src, writtenCol]
+  by_cases hI : pI s.vals = true
+  · rw [if_pos hI, hI]
+  · have hf : pI s.vals = false := by cases hx : pI s.vals <;> simp_all
+    rw [if_neg hI, hf]
+    by_cases hU : pU s.vals = true
+    · rw [if_pos hU]
+      obtain ⟨p, hp, _, hge⟩ := pI_false_elim hI
+      have hle := (h.2.2.1 p hp).2
+      have : ¬ (s.mx < I64MAX) := by omega
+      simp [this]
+    · rw [if_neg hU]
+
+theorem src_allU (s : SegMix) (h : s.ok) :
+    (match s.src.col with
+      | .i64 => decide (0 ≤ s.src.mn) && decide (0 ≤ s.src.mx)
+      | .u64 => true
+      | .f64 => false) = pU s.vals := by
+  simp only [SegMix.src, writtenCol]
+  by_cases hI : pI s.vals = true
+  · rw [if_pos hI]
+    by_cases hU : pU s.vals = true
+    · rw [hU]
+      obtain ⟨b, hb⟩ := h.1
+      obtain ⟨b', hb'⟩ := h.2.1
+      have hmn : 0 ≤ s.mn := by
+        cases b with
+        | true => exact h.2.2.2 _ hb rfl
+        | false =>
+          have := List.all_eq_true.mp hU _ hb
+          simpa using this
+      have hle : s.mn ≤ s.mx := (h.2.2.1 _ hb').1
+      have hmx : 0 ≤ s.mx := by omega
+      simp [hmn, hmx]
+    · have hf : pU s.vals = false := by cases hx : pU s.vals <;> simp_all
+      rw [hf]
+      obtain ⟨p, hp, _, hlt⟩ := pU_false_elim hU
+      have hle := (h.2.2.1 p hp).1
+      have : ¬ (0 ≤ s.mn) := by omega
+      simp [this]
+  · rw [if_neg hI]
+    by_cases hU : pU s.vals = true
+    · rw [if_pos hU, hU]
+    · have hf : pU s.vals = false := by cases hx : pU s.vals <;> simp_all
+      rw [if_neg hU, hf]
+
+theorem all_map_congr' {α β : Type} (l : List α) (f : α → β) (p : β → Bool) (q : α → Bool)
+    (h : ∀ a ∈ l, p (f a) = q a) : (l.map f).all p = l.all q := by
+  induction l with
+  | nil => rfl
+  | cons a t ih =>
+    simp only [List.map_cons, List.all_cons]
+    rw [h a (List.mem_cons_self ..), ih (fun x hx => h x (List.mem_cons_of_mem _ hx))]
+
+theorem pI_flatMap (segs : List SegMix) : pI (segs.flatMap (·.vals)) = segs.all (fun s => pI s.vals) := by
+  unfold pI
+  rw [List.all_flatMap]
+
+theorem pU_flatMap (segs : List SegMix) : pU (segs.flatMap (·.vals)) = segs.all (fun s => pU s.vals) := by
+  unfold pU
+  rw [List.all_flatMap]
+
+/-- the merged segment's column type is the write-time type of all source values together, for any
+mix of i64- and u64-supplied values (f64 included: negative values next to values ≥ i64::MAX) -/
+theorem mergedCol_mixed (segs : List SegMix) (hok : ∀ s ∈ segs, s.ok) :
+    mergedCol (segs.map SegMix.src) = writtenCol (segs.flatMap (·.vals)) := by
+  have hI : allI64 (segs.map SegMix.src) = segs.all (fun s => pI s.vals) :=
+    all_map_congr' segs SegMix.src _ _ (fun s hs => src_allI s (hok s hs))
+  have hU : allU64 (segs.map SegMix.src) = segs.all (fun s => pU s.vals) :=
+    all_map_congr' segs SegMix.src _ _ (fun s hs => src_allU s (hok s hs))
+  unfold mergedCol writtenCol
+  rw [hI, hU, pI_flatMap, pU_flatMap]
+
 end TantivyModel.JsonRange
